@@ -13,7 +13,7 @@ from vlib import common
 FACTS = os.path.join(common.LEAN, "GoderiveModel", "Generated", "ConcFacts.lean")
 SKELETON = os.path.join(common.LEAN, "GoderiveModel", "K", "Skeleton.lean")
 TARGETS = ["GoderiveModel.Props.C19", "GoderiveModel.Props.C20", "driver"]
-CHANNEL_SYSTEMS = ["fmap", "dup", "joincc", "joinsc", "joinsel", "pipeline"]
+CHANNEL_SYSTEMS = ["fmap", "fmapch", "dup", "joincc", "joinsc", "joinsel", "pipeline"]
 
 TRUSTED = [
     "Go channel / WaitGroup / select semantics as stated in lean/GoderiveModel/K/Lts.lean and implemented by harness/vsched "
